@@ -80,6 +80,8 @@ func (m lww) read(ms string, asc bool) string {
 
 func Run(c *hx.Ctx) error {
 	switch c.Arg("mode", "all") {
+	case "probecompact":
+		return probeCompaction(c)
 	case "directed":
 		n := c.Budget(5, 20)
 		for i := 0; i < n; i++ {
